@@ -2,6 +2,7 @@
 with explicit panic points and proved panic-free; the VCF/BCF decoders are exercised fuzz-style only)."""
 import itertools
 import os
+import re
 import random
 import sys
 
@@ -170,6 +171,30 @@ def check(rep, tier, seed):
                 else:
                     src[k:k + 1] = bytes([rng.randrange(256)])
             jobs.append((["create", "--threads", "1"], bytes(src), "mutated-" + name))
+    # a BCF laid out as htslib does (hand-written encoder): EVERY single-bit flip of its record region and of the magic /
+    # header length (exhaustive), and valid records whose GT vector is typed int16 / int32 (htslib does so from allele 63 on)
+    import struct
+    from callsets import bcf_encode_hts
+    hvcf = render_vcf(["a", "b", "c"], [["0/1", "1/1", "0/0"], ["0/0", "./.", "1/1"], ["1/2", ".", "0/1"]], extra_fields=True)
+    hb = bcf_encode_hts(hvcf)
+    rstart = 9 + struct.unpack("<I", hb[5:9])[0]
+    for k in list(range(0, 9)) + list(range(rstart, len(hb))):
+        for bit in range(8):
+            src = bytearray(hb); src[k] ^= 1 << bit
+            jobs.append((["create", "--threads", "1"], bytes(src), "bcf-every-bit-flip"))
+    rep.coverage["bcf_bit_flips_exhaustive_over_bytes"] = 9 + len(hb) - rstart
+    for ty, pk in ((0x22, "<h"), (0x23, "<i")):
+        out, off, first = hb[:rstart], rstart, True
+        while off < len(hb):
+            ls, li = struct.unpack("<II", hb[off:off + 8])
+            sh, ind = hb[off + 8:off + 8 + ls], hb[off + 8 + ls:off + 8 + ls + li]
+            if first and ind[2] == 0x21:
+                n = 2 * 3
+                ind = ind[:2] + bytes([ty]) + b"".join(struct.pack(pk, x if x < 0x80 else x - 256) for x in ind[3:3 + n]) + ind[3 + n:]
+                first = False
+            out += struct.pack("<II", len(sh), len(ind)) + sh + ind
+            off += 8 + ls + li
+        jobs.append((["create", "--threads", "1"], out, "bcf-gt-int%d" % (16 if ty == 0x22 else 32)))
     res = run_cli_many([(a, d) for a, d, _ in jobs], timeout=120)
     seen_classes = {}
     for (argv, data, fam), (rc, so, se) in zip(jobs, res):
@@ -177,11 +202,11 @@ def check(rep, tier, seed):
         if is_panic(rc, se) or rc == -999:
             where = ""
             s = se.decode(errors="replace")
-            import re
             m = re.search(r"panicked at ([^\n:]+:\d+)", s)
             loc = m.group(1) if m else ("timeout" if rc == -999 else "signal %d" % rc)
-            if "/noodles" in loc or "noodles-" in loc:
-                cls = "panic:dependency:" + loc.split("/src/")[0].split("/")[-1] + "/" + loc.split("/src/")[-1]
+            dep = re.search(r"/registry/src/[^/]+/([^/]+)/src/(.*)$", loc)
+            if dep:
+                cls = "panic:dependency:" + dep.group(1) + "/" + dep.group(2)
             else:
                 cls = "panic:" + loc
             if cls in seen_classes:
